@@ -293,8 +293,19 @@ def lower(k, e):
                 a, b = b, a
             if b[0] not in ("w", "kw"):
                 raise TranslateError("kernel: multiplication by a non-constant")
+            cval = b[2] if b[0] == "kw" else b[1]
+            if not k.in_epilogue and a[0] in ("r", "k", "kw") and 0 < cval < 256:
+                # a small constant factor inside the lane part (e.g. `t * 3` instead of `(t << 1) + t`):
+                # expand into shifts and adds so that the lane checker decides whether it stays inside the lane
+                a = as_lane(k, a)
+                acc = None
+                for bit in range(8):
+                    if (cval >> bit) & 1:
+                        term = a if bit == 0 else k.emit("IShl %s %d" % (opstr(a), bit))
+                        acc = term if acc is None else k.emit("IAdd %s %s" % (opstr(acc), opstr(term)))
+                return acc
             ep_input(k, a)
-            return k.emit_ep("EMul %d" % (b[2] if b[0] == "kw" else b[1]))
+            return k.emit_ep("EMul %d" % cval)
         if op in ("<<", ">>"):
             a = lower(k, e[2])
             c = const_value(e[3])
